@@ -23,16 +23,16 @@ import (
 
 // C17Case is one credential scenario; also the replay format.
 type C17Case struct {
-	Kind      string `json:"kind"` // plain | rest
-	Secret    string `json:"secret"`
-	Secret2   string `json:"secret2"`
-	User      string `json:"user"`
-	Realm     string `json:"realm"`
-	DurationS int64  `json:"duration_s"`
-	OffsetMs  int    `json:"offset_ms"` // generation happens this long after a whole second
-	Window    int    `json:"window"`    // probe every second in [expiry-window, expiry+window]
-	Extra     []int64 `json:"extra,omitempty"` // further probe instants, seconds relative to expiry
-	MethodSeed uint8  `json:"method_seed,omitempty"` // where the cycle through request methods starts
+	Kind       string  `json:"kind"` // plain | rest
+	Secret     string  `json:"secret"`
+	Secret2    string  `json:"secret2"`
+	User       string  `json:"user"`
+	Realm      string  `json:"realm"`
+	DurationS  int64   `json:"duration_s"`
+	OffsetMs   int     `json:"offset_ms"`             // generation happens this long after a whole second
+	Window     int     `json:"window"`                // probe every second in [expiry-window, expiry+window]
+	Extra      []int64 `json:"extra,omitempty"`       // further probe instants, seconds relative to expiry
+	MethodSeed uint8   `json:"method_seed,omitempty"` // where the cycle through request methods starts
 }
 
 func refPassword(secret, username string) string {
